@@ -183,14 +183,18 @@ def judgePair (base : String) (tol : Rat) (tolF : Float) (g og : BGeom) (inputSp
       -- `Simple` is quadratic in the number of vertices: not evaluated for long (smooth) inputs
       let simpleIn := !oor && lr.length ≤ 260 && Spec.Simple lr
       let gp := simpleIn && lr.length ≤ 64 && Spec.GenPos lr
-      let kind := if gp then "-simplegp" else if simpleIn then "-simple" else ""
+      -- beyond general position: collinear vertices in their order along the line (`Spec.ColOrdered`,
+      -- theorem `C13_simple_collinear_ordered`): straight runs, lattice walks that never re-enter a line
+      let ord := simpleIn && !gp && lr.length ≤ 64 && Spec.ColOrdered lr
+      let kind := if gp then "-simplegp" else if ord then "-simpleord" else if simpleIn then "-simple" else ""
       let dropped := if orr.length < lr.length then "-drop" else ""
       let long := if lr.length > 64 && orr.length * 65 < lr.length then "-longrun" else ""
       let bo := if w.backoffs > 0 then "-bo" else ""
       let tie := w.tie || oor
       let cls := if oor then s!"{base}-outofrange" else
         s!"{base}{kind}{dropped}{long}{bo}{if onGrid lr then "" else "-nongrid"}{if tie then "-neartie" else ""}"
-      let simpleSpec := if gp && !Spec.Simple orr then some "simple-input-in-general-position-but-output-self-intersects" else none
+      let simpleSpec := if gp && !Spec.Simple orr then some "simple-input-in-general-position-but-output-self-intersects"
+        else if ord && !Spec.Simple orr then some "simple-input-with-collinear-vertices-in-order-but-output-self-intersects" else none
       let sp := first [inputSpec, specCurve lr orr (if oor then hugeTol else tol), simpleSpec]
       -- The walk iterates `Model.jBody` exactly as `Model.jLoop` does, so for three or more
       -- vertices its final `out` is the model's answer; `simplifyLS` itself is run as well on
